@@ -25,6 +25,7 @@ type Clause struct {
 	Line  int
 	// for callsite clauses
 	Callee string
+	Anchor string // assert at "text": source text identifying the line
 	Ord    int
 }
 
@@ -77,6 +78,7 @@ type FuncContract struct {
 	ViewsUnchecked  bool // "views unchecked": Slice may describe a view that extends beyond its parent (Slice itself checks nothing)
 	Fresh           []string
 	Locals          []string
+	HasAssertAt     bool
 	LoopSigs        []string
 	UseLemmas       []string
 	Instantiate2    []string // labels of lemmas instantiated inside loops
@@ -371,6 +373,19 @@ func parseFuncDirective(fc *FuncContract, word, rest, file string, line int) {
 	mk := func(kind, r string, loop int) *Clause {
 		label, props, r2 := parseLabel(r)
 		return &Clause{Kind: kind, Label: label, Props: props, Src: r2, Expr: parseExprSrc(r2, file, line), Loop: loop, File: file, Line: line}
+	}
+	if word == "assert" && strings.HasPrefix(strings.TrimSpace(rest), "at \"") {
+		// assert at "text" [label] expr
+		r := strings.TrimSpace(rest)[4:]
+		q := strings.Index(r, "\"")
+		if q < 0 {
+			fatalf("%s:%d: bad assert at directive", file, line)
+		}
+		cl := mk("assertat", strings.TrimSpace(r[q+1:]), -1)
+		cl.Anchor = r[:q]
+		fc.Clauses = append(fc.Clauses, cl)
+		fc.HasAssertAt = true
+		return
 	}
 	switch word {
 	case "requires", "ensures", "assert", "cover", "canary":
